@@ -351,37 +351,52 @@ func c06ForEachMarks(c *Ctx) {
 		return
 	}
 	n := 0
-	for _, b := range fn.Blocks {
-		if b != at && !at.Dominates(b) {
-			continue
-		}
-		for _, ins := range b.Instrs {
-			switch x := ins.(type) {
-			case *ssa.Call:
-				if x.Call.StaticCallee() == ec && len(x.Call.Args) == 4 {
+	// scan the code the Unmark dominates; a helper of the package that is handed the marks is
+	// scanned whole, with its parameter standing for them
+	var scan func(f *ssa.Function, marks ssa.Value, at *ssa.BasicBlock, depth int)
+	scan = func(f *ssa.Function, marks ssa.Value, at *ssa.BasicBlock, depth int) {
+		for _, b := range f.Blocks {
+			if at != nil && b != at && !at.Dominates(b) {
+				continue
+			}
+			for _, ins := range b.Instrs {
+				switch x := ins.(type) {
+				case *ssa.Call:
+					if x.Call.StaticCallee() == ec && len(x.Call.Args) == 4 {
+						n++
+						c.Sites++
+						c.Check(x.Call.Args[3] == marks, "foreach.marks", FuncName(fn)+":expandChild.marks", x.Pos(), "the for_each marks",
+							"the child body of a generated block is expanded with marks other than those of this block's for_each ("+pathName(x.Call.Args[3])+"): values decoded from the generated content lose the mark of the collection that produced them")
+						continue
+					}
+					if cal := x.Call.StaticCallee(); cal != nil && cal != ec && depth < 3 && len(cal.Blocks) > 0 && fnPkg(cal) == fnPkg(fn) {
+						for i, a := range x.Call.Args {
+							if a == marks && i < len(cal.Params) {
+								c.Fn(FuncName(cal))
+								scan(cal, cal.Params[i], nil, depth+1)
+							}
+						}
+					}
+				case *ssa.Store:
+					fa, ok := x.Addr.(*ssa.FieldAddr)
+					if !ok {
+						continue
+					}
+					fv := fieldVarOf(fa.X.Type(), fa.Field)
+					if fv == nil || fv.Name() != "valueMarks" {
+						continue
+					}
+					if al, ok := fa.X.(*ssa.Alloc); !ok || !isNamed(al.Type().(*types.Pointer).Elem(), modPath+"/ext/dynblock", "unknownBody") {
+						continue
+					}
 					n++
 					c.Sites++
-					c.Check(x.Call.Args[3] == marks, "foreach.marks", FuncName(fn)+":expandChild.marks", x.Pos(), "the for_each marks",
-						"the child body of a generated block is expanded with marks other than those of this block's for_each ("+pathName(x.Call.Args[3])+"): values decoded from the generated content lose the mark of the collection that produced them")
+					c.Check(x.Val == marks, "foreach.marks", FuncName(fn)+":unknownBody.valueMarks", x.Pos(), "the for_each marks",
+						"the placeholder body for an unknown for_each is given marks other than those of this block's for_each ("+pathName(x.Val)+"): with an unknown marked collection the decoded placeholder is unmarked, while the same collection once known yields marked values")
 				}
-			case *ssa.Store:
-				fa, ok := x.Addr.(*ssa.FieldAddr)
-				if !ok {
-					continue
-				}
-				fv := fieldVarOf(fa.X.Type(), fa.Field)
-				if fv == nil || fv.Name() != "valueMarks" {
-					continue
-				}
-				if al, ok := fa.X.(*ssa.Alloc); !ok || !isNamed(al.Type().(*types.Pointer).Elem(), modPath+"/ext/dynblock", "unknownBody") {
-					continue
-				}
-				n++
-				c.Sites++
-				c.Check(x.Val == marks, "foreach.marks", FuncName(fn)+":unknownBody.valueMarks", x.Pos(), "the for_each marks",
-					"the placeholder body for an unknown for_each is given marks other than those of this block's for_each ("+pathName(x.Val)+"): with an unknown marked collection the decoded placeholder is unmarked, while the same collection once known yields marked values")
 			}
 		}
 	}
+	scan(fn, marks, at, 0)
 	c.Floor("foreach.marks sites", n, 3, "expandChild of the known and unknown branches, the unknownBody literal")
 }
